@@ -18,13 +18,16 @@ TRUSTED_COMMON = [
 OPT_NOTE = ("optimiser model (coq/model/Optimiser.v) replayed bit-for-bit against "
             "MCOptimiser::optimise_state on scripted and real states")
 
+CLI_TRUST = ("bin/gen.py parse_main: translator of analyse_state in src/main.rs into coq/gen/GenCli.v (stage setter lists, replica "
+             "range, reduction), re-run on every check; model/Cli.v gives the setters their meaning")
+
 PROPS = {
     "C09": dict(props_file="props/C09.v", engines=[("cli", dict(quick=4, thorough=60)), ("opt", dict(focus="C09", quick=160, thorough=4000)),
                                                       ("geom", dict(quick=[("ORD", 3000)], thorough=[("ORD", 150000)]))],
-                design="DESIGN.md section 4 C09"),
+                design="DESIGN.md section 4 C09", trusted=[CLI_TRUST]),
     "C10": dict(props_file="props/C10.v", needs_gen=True, engines=[("cli", dict(quick=10, thorough=120)), ("tables", dict(groups=False, labels=True)),
                                                                       ("geom", dict(quick=[("ORD", 3000)], thorough=[("ORD", 150000)]))],
-                design="DESIGN.md section 4 C10"),
+                design="DESIGN.md section 4 C10", trusted=[CLI_TRUST]),
     "C11": dict(props_file="props/C11.v", needs_gen=True, engines=[("geom", dict(quick=[("C11", 4000)], thorough=[("C11", 200000)])), ("cli", dict(quick=3, thorough=40))],
                 design="DESIGN.md section 4 C11"),
     "C08": dict(props_file="props/C08.v", needs_gen=True,
@@ -59,18 +62,18 @@ PROPS = {
     "C05": dict(props_file="props/C05.v", engines=[("opt", dict(focus="C05", quick=250, thorough=6000, coqeval_quick=8, coqeval_thorough=60))],
                 design="DESIGN.md section 4 C05",
                 assumptions=["libm: exp(-inf) = 0 (premise of the binary64 theorems; tested by the harness on every run)",
-                             "thresholds drawn by rand's gen::<f64>() are >= 0",
-                             "kt_ratio, when given, lies in [0,1] (documented meaning of the option)"]),
+                             "thresholds drawn by rand's gen::<f64>() are >= 0"],
+                trusted=[CLI_TRUST]),
     "C06": dict(props_file="props/C06.v", engines=[("opt", dict(focus="C06", quick=250, thorough=6000, coqeval_quick=8, coqeval_thorough=60))],
                 design="DESIGN.md section 4 C06"),
     "C07": dict(props_file="props/C07.v", engines=[("opt", dict(focus="C07", quick=250, thorough=6000))],
                 design="DESIGN.md section 4 C07"),
     "C18": dict(props_file="props/C18.v", engines=[("opt", dict(focus="C18", quick=250, thorough=6000))],
-                design="DESIGN.md section 4 C18"),
+                design="DESIGN.md section 4 C18", trusted=[CLI_TRUST]),
     "C19": dict(props_file="props/C19.v", engines=[("opt", dict(focus="C19", quick=250, thorough=6000))],
                 design="DESIGN.md section 4 C19"),
     "C20": dict(props_file="props/C20.v", engines=[("opt", dict(focus="C20", quick=250, thorough=6000)), ("cli", dict(quick=2, thorough=30))],
-                design="DESIGN.md section 4 C20"),
+                design="DESIGN.md section 4 C20", trusted=[CLI_TRUST]),
 }
 
 
@@ -102,8 +105,8 @@ def evidence_skeleton(prop, tier, seed, conf, t0, violations, note=None):
 
 def regenerate(conf):
     """Regenerate coq/gen/*.v from the running code (tie #1).  Returns a problem string or None."""
-    if not conf.get("needs_gen"):
-        return None
+    # (every property: the generated files are small, only rewritten when their content changes, and
+    #  only the properties whose theorems import them are recompiled)
     import gen
     return gen.regenerate()
 
